@@ -10,7 +10,7 @@ PROPERTY = "C06"
 LEVEL = "exploration"
 META = {
     "text": "Every network reachable from 8 base nets (radial, ring+chord, 2-winding and 3-winding transformer, two radial islands, radial with one loop, two ring islands, parallel lines) by <=1 (thorough <=2) deviations is solved by the default Newton-Raphson and then by every element of the full product algorithm {nr, iwamoto_nr, bfsw, gs, fdbx, fdxb} x numba {on, off} x lightsim2grid {off, on} x init {flat, dc, results}; whenever an alternative returns, its complex bus voltages and all branch / slack / generator powers are compared with the default solution, and the backward/forward sweep must not die with an internal error on a radial or weakly meshed net with one slack per island.",
-    "note": "Trusted: the default NR solution as reference (its own correctness is C01/C02). Documented refusals (NotImplementedError, LoadflowNotConverged of gs/fd within max_iteration) are counted as outcomes. ZIP loads, FACTS and loadings with |dV| > 10 % are outside the alphabet; weakly meshed means <= 3 independent loops per island.",
+    "note": "Trusted: the default NR solution as reference (its own correctness is C01/C02). Documented refusals (NotImplementedError, LoadflowNotConverged of gs/fd within max_iteration) are counted as outcomes; a flat start behind a phase shifting transformer that lands on another exact root of the reference's own equations is counted, not judged. ZIP loads, FACTS and loadings with |dV| > 10 % are outside the alphabet; weakly meshed means <= 3 independent loops per island.",
     "technique": "bounded exhaustive input enumeration (deviation-bounded) crossed with a full configuration product, differential oracle against the default solver with family tolerances",
     "design_ref": "DESIGN.md §3 E1, §4 C06",
 }
@@ -145,6 +145,7 @@ def explore(tier, seed):
     rep.assumptions = ["reference = default runpp (nr, numba, lightsim2grid auto, init auto); nets whose reference does not converge are counted only",
                        "bfsw must-solve clause applies to nets with exactly one slack bus per island and <= %d independent loops per island" % MAX_LOOPS_WEAK,
                        "refusals (NotImplementedError / LoadflowNotConverged / UserWarning) are outcomes, counted per algorithm in extra",
+                       "init=flat on nets with a phase shifting transformer: a result that differs but satisfies the reference's own equations (Ybus, Sbus, bus types of the default run) to 1e-6 p.u. is another valid root - counted as other_valid_solution_flat_start_phase_shift",
                        "no ZIP loads / FACTS; moderate loading"]
     return rep
 
